@@ -354,13 +354,38 @@ OWNED = {
 }
 
 
+DESTRUCTORS = {"ZSTD_DCtx_s": ("ZSTD_freeDCtx",), "ZSTDMT_CCtx_s": ("ZSTDMT_freeCCtx",), "POOL_ctx_s": ("POOL_free",),
+               "ZSTD_CCtx_s": ("ZSTD_freeCCtxContent",), "ZSTD_CDict_s": ("ZSTD_freeCDict",), "ZSTD_DDict_s": ("ZSTD_freeDDict",)}
+OWNED.update({
+    "ZSTD_CCtx_s": ("ZSTD_sizeof_CCtx", ["ZSTD_sizeof_mtctx"], {"workspace", "localDict", "mtctx"}, {}),
+    "ZSTD_CDict_s": ("ZSTD_sizeof_CDict", [], {"workspace"}, {}),
+    "ZSTD_DDict_s": ("ZSTD_sizeof_DDict", [], {"dictBuffer", "dictContent"}, {"dictContent": "the copy a static DDict keeps behind itself (dictBuffer stays NULL there)"}),
+})
+
+
 def sizeof_completeness(prog, res):
     R = "T13.sizeof-completeness"
     alias = {"inBuff": {"inBuffSize", "outBuffSize"}, "jobs": {"jobIDMask"}, "roundBuff": {"roundBuff"}, "queue": {"queueSize"}, "threads": {"threadCapacity"}}
     for rec, (fn, helpers, owned, notes) in sorted(OWNED.items()):
         f = prog.fn(fn)
         mentioned = {x["f"] for _, _, x in f.events(lambda y: y.get("k") == "mem")}
-        for fld in sorted(owned):
+        for h in helpers:      # same-file helpers that are handed the whole object
+            if prog.has_fn(h) and h in f.callees():
+                mentioned |= {x["f"] for _, _, x in prog.fn(h).events(lambda y: y.get("k") == "mem")}
+        # the table above is what I read; what the destructor releases is derived on every run, so that a sub-object added to the
+        # destructor (or one the table forgot: the MT serial state's LDM tables) has to be counted as well
+        derived = set()
+        for dn in DESTRUCTORS.get(rec, ()):
+            d = prog.fn(dn)
+            for b, i, c in d.calls():
+                if not c.get("c") or "free" not in c["c"].lower() or not c.get("a"):
+                    continue
+                for y in walk(c["a"][0]):
+                    if y.get("k") == "mem" and strip_casts(y["b"]).get("k") == "ref" and strip_casts(y["b"]).get("rk") == "p" and y.get("t") != "ZSTD_customMem":
+                        derived.add(y["f"])
+        res.check(not DESTRUCTORS.get(rec) or len(derived) >= 1, R, "%s:destructor-read" % rec, f.loc, "destructor releases %s" % ", ".join(sorted(derived)),
+                  "no released field found in the destructor(s) of %s" % rec)
+        for fld in sorted(owned | derived):
             ok = fld in mentioned or bool(alias.get(fld, set()) & mentioned)
             res.check(ok, R, "%s.%s" % (rec, fld), f.loc, "counted by %s%s" % (fn, " as " + notes[fld] if fld in notes else ""),
                       "%s does not count the owned field %s.%s: the reported size under-reports what the object holds" % (fn, rec, fld))
